@@ -62,7 +62,7 @@ def toolRun (j : Json) : Except String (Option Mcp.Json.Obj → ToolOutcome) := 
   match ← getStr j "k" with
   | "result" => let r ← resultOfSpec (← j.getObjVal? "r"); pure (fun _ => .result r)
   | "err" => let m ← getText j "msg"; pure (fun _ => .goErr m)
-  | "unenc" => pure (fun _ => .unencodable)
+  | "unenc" => let w ← getText j "why"; pure (fun _ => .unencodable w)
   | "echo" => pure (fun args => .result ⟨[], some [], some (match args with | none => .null | some o => .obj o), false⟩)
   | k => throw s!"tool outcome {k}"
 
@@ -70,7 +70,7 @@ def promptRun (j : Json) : Except String (List (Text × Text) → PromptOutcome)
   match ← getStr j "k" with
   | "result" => let r ← promptOfSpec (← j.getObjVal? "r"); pure (fun _ => .result r)
   | "err" => let m ← getText j "msg"; pure (fun _ => .goErr m)
-  | "unenc" => pure (fun _ => .unencodable)
+  | "unenc" => let w ← getText j "why"; pure (fun _ => .unencodable w)
   | "args" => pure (fun args => .result ⟨[], [], some [⟨t!"user", some (.text (renderArgs args) none)⟩]⟩)
   | k => throw s!"prompt outcome {k}"
 
